@@ -74,6 +74,9 @@ pub enum GOp {
     /// a stale stand-in for file f / script s that a later add or import must replace
     AddStaleTmpl { g: usize, f: usize },
     AddStaleScript { g: usize, s: usize },
+    /// remove file f / script s from group g (it is added again later in the same stream)
+    RemoveTmpl { g: usize, f: usize },
+    RemoveScript { g: usize, s: usize },
     SetExtra { g: usize },
     SetInline { g: usize, e: usize },
     Import { into: usize, from: usize },
@@ -98,6 +101,9 @@ pub struct GExec {
     pub ops: Vec<GOp>,
     /// faults applied to successive write() calls of every sink (cycled per sink)
     pub sink_plan: Vec<SinkFault>,
+    /// order (with repeats) in which the stylesheets are transformed inside this process; empty =
+    /// each once, in world order. The result kept for a sheet is that of its last transform.
+    pub css_order: Vec<usize>,
 }
 
 // ---------------------------------------------------------------------------------------------
@@ -190,9 +196,20 @@ pub struct CssResult {
     pub fired: (u64, u64, u64),
 }
 
-fn run_css(world: &GroupWorld, sink_plan: &[SinkFault]) -> Vec<CssResult> {
+fn run_css(world: &GroupWorld, sink_plan: &[SinkFault], order: &[usize]) -> Vec<CssResult> {
+    // transforms earlier in the same simulated process must not influence later ones
+    let natural: Vec<usize> = (0..world.css.len()).collect();
+    let order: Vec<usize> = if order.is_empty() { natural.clone() } else { order.iter().copied().filter(|i| *i < world.css.len()).chain(natural.iter().copied().filter(|i| !order.contains(i))).collect() };
+    let mut per_sheet: Vec<Vec<CssResult>> = world.css.iter().map(|_| vec![]).collect();
+    for i in order {
+        per_sheet[i] = run_css_one(&world.css[i], sink_plan);
+    }
+    per_sheet.into_iter().flatten().collect()
+}
+
+fn run_css_one(c: &GCss, sink_plan: &[SinkFault]) -> Vec<CssResult> {
     let mut out = vec![];
-    for c in &world.css {
+    {
         let css = c.rules.concat();
         // normal + low-priority output, each through the faulty sink; then both source maps
         let t = StyleSheetTransformer::from_css(&c.path, &css, c.options());
@@ -247,6 +264,12 @@ fn execute_in_thread(world: &GroupWorld, exec: &GExec) -> ExecResult {
             GOp::AddStaleScript { g, s } => {
                 groups[*g].add_script(&world.scripts[*s].0, "exports.stale = function(){ return 'stale' }");
             }
+            GOp::RemoveTmpl { g, f } => {
+                groups[*g].remove_tmpl(&world.files[*f].path);
+            }
+            GOp::RemoveScript { g, s } => {
+                groups[*g].remove_script(&world.scripts[*s].0);
+            }
             GOp::SetExtra { g } => {
                 if let Some(x) = &world.extra_runtime {
                     groups[*g].set_extra_runtime_script(x);
@@ -290,7 +313,7 @@ fn execute_in_thread(world: &GroupWorld, exec: &GExec) -> ExecResult {
     for (k, _) in probe.iter() {
         order.push_str(k);
     }
-    let css = run_css(world, &exec.sink_plan);
+    let css = run_css(world, &exec.sink_plan, &exec.css_order);
     ExecResult { emission, order_hash: fnv(order.as_bytes()), css }
 }
 
@@ -328,7 +351,7 @@ pub fn canonical_exec(world: &GroupWorld) -> GExec {
     for e in 0..world.inline_edits.len() {
         ops.push(GOp::SetInline { g: 0, e });
     }
-    GExec { entropy: 0, dev_flags: vec![world.dev], ops, sink_plan: vec![] }
+    GExec { entropy: 0, dev_flags: vec![world.dev], ops, sink_plan: vec![], css_order: vec![] }
 }
 
 /// Compare a perturbed execution with the canonical one.
@@ -650,7 +673,7 @@ pub fn generate(seed: u64, thorough: bool) -> (GroupWorld, Vec<GExec>) {
         world.css.push(GCss {
             path: format!("style/{}.wxss", i),
             rules,
-            class_prefix: if r.chance(0.5) { Some(r.pick(&["p", "comp-x", ""]).to_string()) } else { None },
+            class_prefix: if r.chance(0.5) { Some(r.pick(&["p", "comp-x", "", "comp", "pp", "comp-x-y"]).to_string()) } else { None },
             class_prefix_sign: if r.chance(0.3) { Some("SIGN".into()) } else { None },
             rpx_ratio: *r.pick(&[750.0f32, 375.0, 100.0, 1.0]),
             import_sign: if r.chance(0.5) { Some("IMPORT".into()) } else { None },
@@ -690,6 +713,7 @@ fn gen_exec(r: &mut Rng, world: &GroupWorld, i: u64) -> GExec {
     let use_dup = r.chance(0.4);
     let use_emit = r.chance(0.3);
     let use_sink = r.chance(0.7);
+    let use_remove = r.chance(0.3);
     let n_groups = if use_partition { r.range(2, 4) } else { 1 };
     let dev_flags: Vec<bool> = (0..n_groups).map(|g| if g == 0 { world.dev } else { r.chance(0.5) }).collect();
     // parent tree: parent[g] is a group other than g, edges lead to 0
@@ -707,6 +731,14 @@ fn gen_exec(r: &mut Rng, world: &GroupWorld, i: u64) -> GExec {
     for (f, file) in world.files.iter().enumerate() {
         let g = group_of(r);
         let mut s = vec![];
+        if use_remove && r.chance(0.3) {
+            // added, removed, and added again: the final set is the same
+            s.push(if r.chance(0.5) { GOp::AddTmpl { g, f, old: false } } else { GOp::AddStaleTmpl { g, f } });
+            if use_emit && r.chance(0.3) {
+                s.push(GOp::Emit { g });
+            }
+            s.push(GOp::RemoveTmpl { g, f });
+        }
         if file.old_chunks.is_some() {
             s.push(GOp::AddTmpl { g, f, old: true });
         }
@@ -726,7 +758,12 @@ fn gen_exec(r: &mut Rng, world: &GroupWorld, i: u64) -> GExec {
     }
     for s in 0..world.scripts.len() {
         let g = group_of(r);
-        let mut st = vec![GOp::AddScript { g, s }];
+        let mut st = vec![];
+        if use_remove && r.chance(0.3) {
+            st.push(if r.chance(0.5) { GOp::AddScript { g, s } } else { GOp::AddStaleScript { g, s } });
+            st.push(GOp::RemoveScript { g, s });
+        }
+        st.push(GOp::AddScript { g, s });
         if use_dup && r.chance(0.3) {
             st.push(GOp::AddScript { g, s });
         }
@@ -785,7 +822,18 @@ fn gen_exec(r: &mut Rng, world: &GroupWorld, i: u64) -> GExec {
             });
         }
     }
-    GExec { entropy: 1 + i + r.below(1 << 30) as u64, dev_flags, ops, sink_plan }
+    let mut css_order = vec![];
+    if !world.css.is_empty() && r.chance(0.5) {
+        css_order = (0..world.css.len()).collect();
+        r.shuffle(&mut css_order);
+        // some sheets are transformed again later in the same process
+        let extra = r.below(3);
+        for _ in 0..extra {
+            let k = r.below(world.css.len());
+            css_order.insert(0, k);
+        }
+    }
+    GExec { entropy: 1 + i + r.below(1 << 30) as u64, dev_flags, ops, sink_plan, css_order }
 }
 
 // ---------------------------------------------------------------------------------------------
@@ -827,6 +875,7 @@ pub fn count_exec_faults(world: &GroupWorld, exec: &GExec, stats: &mut Stats) {
             GOp::Emit { .. } => stats.add("fault.interleaved_emit", 1),
             GOp::SetInline { .. } => stats.add("fault.inline_script_edit", 1),
             GOp::AddStaleTmpl { .. } | GOp::AddStaleScript { .. } => stats.add("fault.import_over_stale", 1),
+            GOp::RemoveTmpl { .. } | GOp::RemoveScript { .. } => stats.add("fault.remove_then_readd", 1),
             _ => {}
         }
     }
@@ -952,6 +1001,8 @@ pub fn exec_to_json(e: &GExec) -> Value {
             GOp::AddScript { g, s } => json!(["add_script", g, s]),
             GOp::AddStaleTmpl { g, f } => json!(["add_stale_tmpl", g, f]),
             GOp::AddStaleScript { g, s } => json!(["add_stale_script", g, s]),
+            GOp::RemoveTmpl { g, f } => json!(["remove_tmpl", g, f]),
+            GOp::RemoveScript { g, s } => json!(["remove_script", g, s]),
             GOp::SetExtra { g } => json!(["set_extra", g]),
             GOp::SetInline { g, e } => json!(["set_inline", g, e]),
             GOp::Import { into, from } => json!(["import_group", into, from]),
@@ -962,6 +1013,7 @@ pub fn exec_to_json(e: &GExec) -> Value {
             SinkFault::Eintr => json!(["eintr"]),
             SinkFault::Fail => json!(["fail"]),
         }).collect::<Vec<_>>(),
+        "css_order": e.css_order,
     })
 }
 
@@ -974,6 +1026,8 @@ pub fn exec_from_json(v: &Value) -> GExec {
             "add_script" => ops.push(GOp::AddScript { g: u(&o[1]), s: u(&o[2]) }),
             "add_stale_tmpl" => ops.push(GOp::AddStaleTmpl { g: u(&o[1]), f: u(&o[2]) }),
             "add_stale_script" => ops.push(GOp::AddStaleScript { g: u(&o[1]), s: u(&o[2]) }),
+            "remove_tmpl" => ops.push(GOp::RemoveTmpl { g: u(&o[1]), f: u(&o[2]) }),
+            "remove_script" => ops.push(GOp::RemoveScript { g: u(&o[1]), s: u(&o[2]) }),
             "set_extra" => ops.push(GOp::SetExtra { g: u(&o[1]) }),
             "set_inline" => ops.push(GOp::SetInline { g: u(&o[1]), e: u(&o[2]) }),
             "import_group" => ops.push(GOp::Import { into: u(&o[1]), from: u(&o[2]) }),
@@ -995,6 +1049,7 @@ pub fn exec_from_json(v: &Value) -> GExec {
         dev_flags: v["dev_flags"].as_array().map(|a| a.iter().map(|b| b.as_bool().unwrap_or(false)).collect()).unwrap_or_else(|| vec![false]),
         ops,
         sink_plan,
+        css_order: v["css_order"].as_array().map(|a| a.iter().map(|x| x.as_u64().unwrap_or(0) as usize).collect()).unwrap_or_default(),
     }
 }
 
@@ -1025,6 +1080,8 @@ fn remove_file(w: &GroupWorld, e: &GExec, f: usize) -> (GroupWorld, GExec) {
             GOp::AddTmpl { g, f: of, old } => Some(GOp::AddTmpl { g: *g, f: if *of > f { of - 1 } else { *of }, old: *old }),
             GOp::AddStaleTmpl { f: of, .. } if *of == f => None,
             GOp::AddStaleTmpl { g, f: of } => Some(GOp::AddStaleTmpl { g: *g, f: if *of > f { of - 1 } else { *of } }),
+            GOp::RemoveTmpl { f: of, .. } if *of == f => None,
+            GOp::RemoveTmpl { g, f: of } => Some(GOp::RemoveTmpl { g: *g, f: if *of > f { of - 1 } else { *of } }),
             GOp::SetInline { g, e } => edit_map[*e].map(|ne| GOp::SetInline { g: *g, e: ne }),
             o => Some(o.clone()),
         })
@@ -1042,6 +1099,11 @@ pub fn shrink_candidates(w: &GroupWorld, e: &GExec) -> Vec<(GroupWorld, GExec)> 
         if c.ops != e.ops || e.dev_flags.len() != 1 {
             out.push((w.clone(), c));
         }
+    }
+    if !e.css_order.is_empty() {
+        let mut e2 = e.clone();
+        e2.css_order.clear();
+        out.push((w.clone(), e2));
     }
     if !e.sink_plan.is_empty() {
         let mut e2 = e.clone();
@@ -1084,6 +1146,8 @@ pub fn shrink_candidates(w: &GroupWorld, e: &GExec) -> Vec<(GroupWorld, GExec)> 
                     GOp::AddScript { g, s: os } => Some(GOp::AddScript { g: *g, s: if *os > s { os - 1 } else { *os } }),
                     GOp::AddStaleScript { s: os, .. } if *os == s => None,
                     GOp::AddStaleScript { g, s: os } => Some(GOp::AddStaleScript { g: *g, s: if *os > s { os - 1 } else { *os } }),
+                    GOp::RemoveScript { s: os, .. } if *os == s => None,
+                    GOp::RemoveScript { g, s: os } => Some(GOp::RemoveScript { g: *g, s: if *os > s { os - 1 } else { *os } }),
                     o => Some(o.clone()),
                 })
                 .collect();
